@@ -3,13 +3,15 @@
   Property theorems only.  The per-command facts are decided by the kernel on the marshal and
   unmarshal programs regenerated from /repo on this run; the generic theorem `mirror_roundtrip`
   turns the decided `Mirror` facts into a statement about all field values.
-  Helper lemmas: `Manticore/Lemmas/Smb{Basics,Marshal,Unmarshal,Mirror,Std}.lean`.
+  Helper lemmas: `Manticore/Lemmas/Smb{Basics,Marshal,Unmarshal,Mirror,Std}.lean`; for the loop fragment
+  (`MirrorLoops`, Model/SmbLoops.lean) `Manticore/Lemmas/SmbLoops{,Unmarshal,Reencode,Mirror}.lean`.
 -/
 import Manticore.Model.SmbCmd
 import Manticore.Model.SmbPinned
 import Manticore.Model.SmbCodecs
 import Manticore.Gen.SmbCommands
 import Manticore.Lemmas.SmbMirror
+import Manticore.Lemmas.SmbLoopsMirror
 import Manticore.Lemmas.SmbStd
 import Manticore.Lemmas.SmbLocality
 namespace Manticore.C04
@@ -60,7 +62,9 @@ theorem known_roundtrip_findings :
 
 /-- **every buffer is sized by the field documented to size it**: the (command, buffer, length) and
     (command, list, count) relations the regenerated unmarshal programs rely on are exactly the pinned
-    ones of `Spec/SmbRelations.lean` (50 relations).  A decoder that starts reading a buffer with another
+    ones of `Spec/SmbRelations.lean` (54 relations: 50 buffers and lists, and the arithmetic behind the two `Pad`
+    fields of SESSION_SETUP_ANDX — `padLen` starts from `UnicodePasswordLen` and is rounded up to even / starts from 0
+    and is 1 when `len(P)+3` is odd).  A decoder that starts reading a buffer with another
     count field makes this fail, and the round-trip specification — which uses the pinned table —
     then exhibits an assignment that no longer survives. -/
 theorem length_relations_pinned :
@@ -194,6 +198,109 @@ theorem smb_reencode (c : Cmd) (hmem : c ∈ commands) (hm : Mirror c = true) (e
     beq_iff_eq] at h1 h2
   exact mirror_reencode std_lawful std_lawful_fmt c hm h2.1 h1 h2.2 env0 env hc
 
+/-! ## the loop fragment: list fields marshalled by a `range` loop and read back by a counted loop -/
+
+/-- **Which commands the loop fragment adds**: exactly these eight satisfy `MirrorLoops` without satisfying
+    `Mirror`.  LockingAndxRequest: two lists of LOCKING_ANDX_RANGE64 written by `range` loops and read back by
+    counted loops running to `NumberOfRequestedUnlocks` / `NumberOfRequestedLocks` through 20-byte windows;
+    OpenAndxRequest: the fixed array `Reserved [2]USHORT` written by a `range` loop and filled in place;
+    TransactionRequest: `Setup []USHORT` read back by a loop running to `SetupCount` into a freshly made list;
+    WriteAndxRequest, WriteRawRequest: `OffsetHigh` written iff non-zero as the last parameter field and read under
+    `WordCount == 14`, the word count the block has with it (12 without);
+    SessionSetupAndxRequest, SessionSetupAndxResponse: `Pad` read with a length computed by arithmetic
+    (`UnicodePasswordLen` rounded up to even; one byte when `len(P)+3` is odd);
+    WriteMpxRequest (and WriteAndxRequest): the last buffer read not followed by an advance of `offset`. -/
+theorem loop_mirror_commands :
+    (commands.filter (fun c => MirrorLoops c && !Mirror c)).map (·.name) =
+      ["LockingAndxRequest", "OpenAndxRequest", "SessionSetupAndxRequest", "SessionSetupAndxResponse",
+       "TransactionRequest", "WriteAndxRequest", "WriteMpxRequest", "WriteRawRequest"] := by decide +kernel
+
+/-- `MirrorLoops` extends `Mirror`: each of the 90 `Mirror` commands satisfies it -/
+theorem mirror_loops_extends : commands.all (fun c => !Mirror c || MirrorLoops c) = true := by decide +kernel
+
+/-- **What is still outside**: exactly these 17 commands satisfy neither predicate; for them the round trip is
+    decided by the correspondence runs only.  Thirteen carry a recorded structural finding
+    (`known_roundtrip_findings`: a field never marshalled / never unmarshalled, the whole buffer read three times,
+    `OffsetHigh` of ReadRawRequest under a word count its own Marshal never reaches, the optional array of
+    WriteAndCloseRequest, a 43-byte window for 53-byte entries); of the other four FindCloseResponse and
+    WriteAndUnlockRequest decode a nested string from the whole block instead of from `offset`, RenameRequest
+    reads its attributes without checking the error or using the count, and WriteRequest puts its buffer ahead of
+    the parameter block. -/
+theorem non_mirror_loops_commands :
+    (commands.filter (fun c => !MirrorLoops c)).map (·.name) =
+      ["CreateTemporaryResponse", "FindCloseResponse", "FindResponse", "FindUniqueResponse", "LockAndReadResponse",
+       "NegotiateRequest", "NegotiateResponse", "OpenAndxResponse",
+       "QueryInformation2Response", "QueryInformationResponse", "ReadRawRequest", "ReadResponse", "RenameRequest",
+       "TreeConnectRequest", "WriteAndCloseRequest", "WriteAndUnlockRequest", "WriteRequest"] := by decide +kernel
+
+/-- **C04, generic round trip over the loop fragment.**  As `mirror_roundtrip`, for every command whose
+    regenerated programs satisfy `MirrorLoops`: the only statements outside the straight-line fragment are
+    `for _, x := range c.F { PutUint…(x) }` against `c.F = make([]T, c.G); for i < int(c.G) {…}` or
+    `for i := range c.F {…}` (fixed array), and `for _, x := range c.F { x.Marshal() }` against
+    `c.F = []T{}; for i < int(c.G) { if len(blk) < offset+size {err}; x.Unmarshal(blk[offset:offset+size]); … }`.
+    `consistent` asks of a counted list that it has `c.G` entries (the pinned relations of
+    `Spec/SmbRelations.lean`, `length_relations_pinned`), that its integers fit their width, and of nested
+    elements that each is in its type's domain and is left as it is by its own `Marshal` (`tupOk`, `tupFix`: the
+    loop marshals a copy, so the sender keeps the element as it was).  The codec laws are needed on the element
+    types too (`Cmd.subTypesL`).  An integer emitted iff non-zero (`if c.F != 0 { … }`, last parameter field behind
+    fixed-width fields) against `if WordCount == k { … }`: both forms round-trip, `WordCount` telling which
+    (`optTrailing`: `k` is the word count with the field and not the one without).  A buffer whose length is the
+    local `padLen` (`padLen := int(c.G)` / `0`, then `if padLen%2 == 1 { padLen++ }` or `if (len(P)+3)%2 == 1 { padLen = 1 }`):
+    `consistent` asks that the sender's buffer has the length that arithmetic gives (`relationsHold`).
+    `receiverFits` is what Unmarshal takes from the receiving structure instead of from the wire: a fixed array has
+    the length of the sender's — in Go both have the declared length `[n]T`; the model's environments are untyped —,
+    and an optional integer the sender holds as zero is zero in the receiver (a structure fresh from `New…()`; decoding
+    the short form into a structure that holds a stale value keeps it: `optional_stale_counterexample`). -/
+theorem mirror_loops_roundtrip {C : Codecs} {T : String → Prop} (hC : LawfulCodecs C T) (c : Cmd)
+    (hm : MirrorLoops c = true) (hT : ∀ t ∈ c.subTypesL, T t) (env0 env : Env) (hc : consistent C c env = true)
+    (hrecv : receiverFits c env0 env = true) :
+    ∃ bs env' d, encodeCmd C c env = .ok bs ∧ envAfterMarshal C c env = .ok env' ∧
+      decodeCmd C c env0 bs = .ok d ∧ ∀ f ∈ c.roundTripFields, d.get f = env'.get f :=
+  mirror_loops_roundtrip_core hC c hm hT env0 env hc hrecv
+
+/-- **C04, re-encoding over the loop fragment** (as `mirror_reencode`): marshalling the decoded structure
+    again yields the same bytes. -/
+theorem mirror_loops_reencode {C : Codecs} {T F : String → Prop} (hC : LawfulCodecs C T) (hF : LawfulFmt C F) (c : Cmd)
+    (hm : MirrorLoops c = true) (hre : ReencodableL c = true) (hT : ∀ t ∈ c.subTypesL, T t) (hFt : ∀ t ∈ c.fmtTypes, F t)
+    (env0 env : Env) (hc : consistent C c env = true) (hrecv : receiverFits c env0 env = true) :
+    ∃ bs d, encodeCmd C c env = .ok bs ∧ decodeCmd C c env0 bs = .ok d ∧ encodeCmd C c d = .ok bs :=
+  mirror_loops_reencode_core hC hF c hm hre hT hFt env0 env hc hrecv
+
+/-- every nested type a `MirrorLoops` command marshals — list elements included — is one of the lawful ones, and
+    every such command has the re-encodable shape, setting buffer formats on `SMB_STRING` fields only -/
+theorem mirror_loops_types_lawful :
+    commands.all (fun c => !MirrorLoops c ||
+      (c.subTypesL.all (Manticore.SmbCodecs.lawfulTypes.contains ·) && ReencodableL c &&
+        c.fmtTypes.all (· == "SMB_STRING"))) = true := by
+  decide +kernel
+
+private theorem loops_side (c : Cmd) (hmem : c ∈ commands) (hm : MirrorLoops c = true) :
+    (∀ t ∈ c.subTypesL, t ∈ Manticore.SmbCodecs.lawfulTypes) ∧ ReencodableL c = true ∧
+      ∀ t ∈ c.fmtTypes, t = "SMB_STRING" := by
+  have h := List.all_eq_true.mp mirror_loops_types_lawful c hmem
+  rw [hm] at h
+  simp only [Bool.not_true, Bool.false_or, List.all_eq_true, List.contains_iff_mem, Bool.and_eq_true,
+    beq_iff_eq] at h
+  exact ⟨h.1.1, h.1.2, h.2⟩
+
+/-- **C04 for the regenerated commands, loop fragment.**  Each of the 98 `MirrorLoops` command structures of this
+    tree round-trips every declared field and its AndX block, for all internally consistent field values and all
+    initial states of the receiver that fit (`receiverFits`), with the C06 models as nested codecs. -/
+theorem smb_loops_roundtrip (c : Cmd) (hmem : c ∈ commands) (hm : MirrorLoops c = true) (env0 env : Env)
+    (hc : consistent Manticore.SmbCodecs.std c env = true) (hrecv : receiverFits c env0 env = true) :
+    ∃ bs env' d, encodeCmd Manticore.SmbCodecs.std c env = .ok bs ∧
+      envAfterMarshal Manticore.SmbCodecs.std c env = .ok env' ∧
+      decodeCmd Manticore.SmbCodecs.std c env0 bs = .ok d ∧ ∀ f ∈ c.roundTripFields, d.get f = env'.get f :=
+  mirror_loops_roundtrip std_lawful c hm (loops_side c hmem hm).1 env0 env hc hrecv
+
+/-- **C04, re-encoding, for the regenerated commands of the loop fragment** -/
+theorem smb_loops_reencode (c : Cmd) (hmem : c ∈ commands) (hm : MirrorLoops c = true) (env0 env : Env)
+    (hc : consistent Manticore.SmbCodecs.std c env = true) (hrecv : receiverFits c env0 env = true) :
+    ∃ bs d, encodeCmd Manticore.SmbCodecs.std c env = .ok bs ∧ decodeCmd Manticore.SmbCodecs.std c env0 bs = .ok d ∧
+      encodeCmd Manticore.SmbCodecs.std c d = .ok bs := by
+  obtain ⟨h1, h2, h3⟩ := loops_side c hmem hm
+  exact mirror_loops_reencode std_lawful std_lawful_fmt c hm h2 h1 h3 env0 env hc hrecv
+
 /-! ## slot locality -/
 
 /-- **C04, slot locality.**  When `slotRange c f = some (lo, hi)` (straight-line marshal program,
@@ -262,5 +369,129 @@ example : decodeCmd Manticore.SmbCodecs.std cmd_ReadAndxRequest [] [0x01, 0x04, 
 /-- without an AndX block set the prologue's default goes out: `ff 00 00 00` -/
 example : encodeCmd Manticore.SmbCodecs.std cmd_LogoffAndxRequest [] = .ok [0x02, 0xFF, 0, 0, 0, 0, 0] := by
   decide +kernel
+
+
+/-! ### non-vacuity of the loop fragment -/
+
+/-- a LOCKING_ANDX request with one unlock range and two lock ranges -/
+def lockingEnv : Env :=
+  [("FID", .n 0x1234), ("TypeOfLock", .n 0x10), ("NewOpLockLevel", .n 0), ("Timeout", .n 0x01020304),
+   ("NumberOfRequestedUnlocks", .n 1), ("NumberOfRequestedLocks", .n 2),
+   ("Unlocks", .ts [([0x0a0b, 0, 0, 1, 0, 2], [])]),
+   ("Locks", .ts [([0x0c0d, 0, 0, 3, 0, 4], []), ([0x0e0f, 0, 0, 5, 0, 6], [])]), (andxField, .ns [0x24, 0, 0x0101])]
+
+/-- PID, pad, offset high/low, length high/low of a LOCKING_ANDX_RANGE64 with small numbers -/
+def r64Bytes (p0 p1 o l : UInt8) : Bytes := [p0, p1, 0, 0, 0, 0, 0, 0, o, 0, 0, 0, 0, 0, 0, 0, l, 0, 0, 0]
+
+example : cmd_LockingAndxRequest ∈ commands := by simp [commands, chunk0, chunk1, chunk2, chunk3]
+example : MirrorLoops cmd_LockingAndxRequest = true ∧ Mirror cmd_LockingAndxRequest = false := by decide +kernel
+example : consistent Manticore.SmbCodecs.std cmd_LockingAndxRequest lockingEnv = true := by
+  have hrun : runM Manticore.SmbCodecs.std cmd_LockingAndxRequest lockingEnv =
+      .ok { P := [0x34, 0x12, 0x10, 0, 4, 3, 2, 1, 1, 0, 2, 0],
+            D := r64Bytes 0x0b 0x0a 1 2 ++ r64Bytes 0x0d 0x0c 3 4 ++ r64Bytes 0x0f 0x0e 5 6, head := [], env := lockingEnv } := by rfl
+  have hax : andxOk true lockingEnv = true := by decide
+  unfold consistent
+  rw [hrun]
+  simp [intsFit, relationsHold, cmd_LockingAndxRequest, lockingEnv, Env.get, wordCountOf, andxWords, r64Bytes]
+  refine ⟨hax, ?_⟩
+  decide +kernel
+example : receiverFits cmd_LockingAndxRequest [] lockingEnv = true := by decide +kernel
+/-- the receiver held three stale lock ranges under another count: they are replaced, not appended to -/
+example : (match encodeCmd Manticore.SmbCodecs.std cmd_LockingAndxRequest lockingEnv with
+    | .ok bs => (match decodeCmd Manticore.SmbCodecs.std cmd_LockingAndxRequest
+          [("Locks", .ts [([1, 2, 3, 4, 5, 6], []), ([1, 2, 3, 4, 5, 6], []), ([1, 2, 3, 4, 5, 6], [])]),
+           ("NumberOfRequestedLocks", .n 3)] bs with
+      | .ok d => cmd_LockingAndxRequest.roundTripFields.map d.get == cmd_LockingAndxRequest.roundTripFields.map lockingEnv.get
+      | _ => false)
+    | _ => false) = true := by decide +kernel
+/-- `tupFix` is needed: `Marshal` keeps 16 bits of a PID, so an element holding 0x10a0b goes out — and comes back —
+    as 0x0a0b while the sender still holds 0x10a0b (in Go the field is a USHORT: cannot happen) -/
+example : tupFix Manticore.SmbCodecs.std "LOCKING_ANDX_RANGE64" ([0x10a0b, 0, 0, 1, 0, 2], []) = false ∧
+    tupOk Manticore.SmbCodecs.std "LOCKING_ANDX_RANGE64" ([0x10a0b, 0, 0, 1, 0, 2], []) = true := by decide +kernel
+
+/-- the fixed array of OPEN_ANDX: the receiver's `Reserved` has the declared two entries -/
+def openAndxEnv : Env :=
+  [("Flags", .n 1), ("AccessMode", .n 2), ("SearchAttrs", .t ([3], [])), ("FileAttrs", .t ([4], [])),
+   ("CreationTime", .t ([5, 6], [])), ("OpenMode", .n 7), ("AllocationSize", .n 8), ("Timeout", .n 9),
+   ("Reserved", .ns [0x0a0b, 0x0c0d]), ("FileName", .t ([4, 1], [[0x41]]))]
+
+example : MirrorLoops cmd_OpenAndxRequest = true := by decide +kernel
+example : receiverFits cmd_OpenAndxRequest [("Reserved", .ns [0, 0])] openAndxEnv = true ∧
+    receiverFits cmd_OpenAndxRequest [] openAndxEnv = false := by decide +kernel
+/-- `receiverFits` is needed: a receiver whose array had three entries reads three words (one of them from the
+    zeroed capacity behind the parameter stream) -/
+example : (match encodeCmd Manticore.SmbCodecs.std cmd_OpenAndxRequest openAndxEnv with
+    | .ok bs => (match decodeCmd Manticore.SmbCodecs.std cmd_OpenAndxRequest [("Reserved", .ns [0, 0])] bs with
+        | .ok d => d.get "Reserved" == some (.ns [0x0a0b, 0x0c0d]) | _ => false) &&
+      (match decodeCmd Manticore.SmbCodecs.std cmd_OpenAndxRequest [("Reserved", .ns [0, 0, 0])] bs with
+        | .ok d => d.get "Reserved" != some (.ns [0x0a0b, 0x0c0d]) | _ => true)
+    | _ => false) = true := by decide +kernel
+
+/-- TRANSACTION: the `Setup` words come back through the loop that runs to `SetupCount` -/
+example : MirrorLoops cmd_TransactionRequest = true ∧ receiverFits cmd_TransactionRequest [] [] = true := by decide +kernel
+
+/-- WRITE_ANDX, both forms: `OffsetHigh` zero → 12 words, non-zero → 14 words with the field last -/
+def writeAndxEnv (hi : Nat) : Env :=
+  [("FID", .n 0x1234), ("Offset", .n 0), ("Timeout", .n 0), ("WriteMode", .n 0), ("Remaining", .n 0),
+   ("Reserved", .n 0), ("DataLength", .n 2), ("DataOffset", .n 0x40), ("OffsetHigh", .n hi), ("Pad", .n 0), ("Data", .b [0xAA, 0xBB])]
+
+example : cmd_WriteAndxRequest ∈ commands := by simp [commands, chunk0, chunk1, chunk2, chunk3, chunk4, chunk5, chunk6, chunk7]
+example : MirrorLoops cmd_WriteAndxRequest = true ∧ MirrorLoops cmd_WriteRawRequest = true := by decide +kernel
+example : consistent Manticore.SmbCodecs.std cmd_WriteAndxRequest (writeAndxEnv 0) = true := by
+  have hrun : runM Manticore.SmbCodecs.std cmd_WriteAndxRequest (writeAndxEnv 0) =
+      .ok { P := [0x34, 0x12, 0, 0, 0, 0, 0, 0, 0, 0, 0, 0, 0, 0, 0, 0, 2, 0, 0x40, 0], D := [0, 0xAA, 0xBB], head := [],
+            env := prologueEnv true (writeAndxEnv 0) } := by rfl
+  have hax : andxOk true (writeAndxEnv 0) = true := by decide
+  unfold consistent
+  rw [hrun]
+  simp [intsFit, relationsHold, cmd_WriteAndxRequest, writeAndxEnv, prologueEnv, Env.get, Env.set, wordCountOf, andxWords,
+    andxField, defaultAndX, evalEnv]
+  exact hax
+example : consistent Manticore.SmbCodecs.std cmd_WriteAndxRequest (writeAndxEnv 0x01020304) = true := by
+  have hrun : runM Manticore.SmbCodecs.std cmd_WriteAndxRequest (writeAndxEnv 0x01020304) =
+      .ok { P := [0x34, 0x12, 0, 0, 0, 0, 0, 0, 0, 0, 0, 0, 0, 0, 0, 0, 2, 0, 0x40, 0, 4, 3, 2, 1], D := [0, 0xAA, 0xBB], head := [],
+            env := prologueEnv true (writeAndxEnv 0x01020304) } := by rfl
+  have hax : andxOk true (writeAndxEnv 0x01020304) = true := by decide
+  unfold consistent
+  rw [hrun]
+  simp [intsFit, relationsHold, cmd_WriteAndxRequest, writeAndxEnv, prologueEnv, Env.get, Env.set, wordCountOf, andxWords,
+    andxField, defaultAndX, evalEnv]
+  exact hax
+example : receiverFits cmd_WriteAndxRequest [("OffsetHigh", .n 0)] (writeAndxEnv 0) = true ∧
+    receiverFits cmd_WriteAndxRequest [("OffsetHigh", .n 5)] (writeAndxEnv 7) = true ∧
+    receiverFits cmd_WriteAndxRequest [("OffsetHigh", .n 5)] (writeAndxEnv 0) = false := by decide +kernel
+/-- `receiverFits` is needed (C04 finding kind `conditional-field`): the 12-word form decoded into a structure that
+    still holds `OffsetHigh = 5` leaves the 5 there -/
+theorem optional_stale_counterexample :
+    (match encodeCmd Manticore.SmbCodecs.std cmd_WriteAndxRequest (writeAndxEnv 0) with
+    | .ok bs => (match decodeCmd Manticore.SmbCodecs.std cmd_WriteAndxRequest [("OffsetHigh", .n 0)] bs,
+                       decodeCmd Manticore.SmbCodecs.std cmd_WriteAndxRequest [("OffsetHigh", .n 5)] bs with
+        | .ok d, .ok d5 => d.get "OffsetHigh" == some (.n 0) && d5.get "OffsetHigh" == some (.n 5)
+        | _, _ => false)
+    | _ => false) = true := by decide +kernel
+
+/-- SESSION_SETUP_ANDX response: one parameter word, so `(len(P)+3)%2 == 1` and the decoder expects one pad byte -/
+def sessionRespEnv : Env :=
+  [("Action", .n 1), ("Pad", .b [0]), ("NativeOS", .t ([1, 1], [[0x41]])), ("NativeLanMan", .t ([1, 1], [[0x42]])),
+   ("PrimaryDomain", .t ([1, 1], [[0x43]]))]
+
+example : MirrorLoops cmd_SessionSetupAndxResponse = true ∧ MirrorLoops cmd_SessionSetupAndxRequest = true := by decide +kernel
+example : (match encodeCmd Manticore.SmbCodecs.std cmd_SessionSetupAndxResponse sessionRespEnv with
+    | .ok bs => (match decodeCmd Manticore.SmbCodecs.std cmd_SessionSetupAndxResponse [] bs with
+      | .ok d => (cmd_SessionSetupAndxResponse.fields.map (·.1)).map d.get == (cmd_SessionSetupAndxResponse.fields.map (·.1)).map sessionRespEnv.get
+      | _ => false)
+    | _ => false) = true := by decide +kernel
+example : consistent Manticore.SmbCodecs.std cmd_SessionSetupAndxResponse sessionRespEnv = true := by
+  have hrun : runM Manticore.SmbCodecs.std cmd_SessionSetupAndxResponse sessionRespEnv =
+      .ok { P := [1, 0], D := [0, 1, 1, 0, 0x41, 1, 1, 0, 0x42, 1, 1, 0, 0x43], head := [],
+            env := prologueEnv true sessionRespEnv } := by rfl
+  have hax : andxOk true sessionRespEnv = true := by decide
+  have htup : ∀ v ∈ [([1, 1], [[0x41]]), ([1, 1], [[0x42]]), (([1, 1], [[0x43]]) : Tup)],
+      tupOk Manticore.SmbCodecs.std "SMB_STRING" v = true := by decide +kernel
+  unfold consistent
+  rw [hrun]
+  simp [intsFit, relationsHold, cmd_SessionSetupAndxResponse, sessionRespEnv, prologueEnv, Env.get, Env.set, wordCountOf,
+    andxWords, andxField, defaultAndX, evalEnv]
+  exact ⟨hax, htup _ (by simp), htup _ (by simp), htup _ (by simp)⟩
 
 end Manticore.C04
